@@ -397,6 +397,30 @@ class Mirror:
             self.blobs[key] = len(self.blobs) + 1
         return f"r{self.blobs[key]}"
 
+    @staticmethod
+    def layout_free(name: str, data: bytes) -> bytes:
+        """an XML part up to layout: white-space-only text nodes dropped, canonical form, generator blanked"""
+        try:
+            root = etree.fromstring(data, etree.XMLParser(remove_blank_text=True))
+        except etree.XMLSyntaxError:
+            return data
+        for e in root.iter():
+            if e.text is not None and not e.text.strip():
+                e.text = None
+            if e.tail is not None and not e.tail.strip():
+                e.tail = None
+        if name == "meta.xml":
+            for g in root.iter("{urn:oasis:names:tc:opendocument:xmlns:meta:1.0}generator"):
+                g.text = None
+        return etree.tostring(root, method="c14n")
+
+    def save_pretty(self, s: "Subject", data: bytes, default_rdf: bytes) -> None:
+        """a pretty-printed zip save, LAST step of a history: the model's `savePretty` names every entry `r<k>` (blob k as it is),
+        `r<k + 1000000>` (blob k through the pretty serialiser) or `m…` (the manifest by its entries); the implementation's entry
+        must be blob k exactly, blob k up to layout, the same manifest entries"""
+        _, files = read_zip(data)
+        self.reqs.append((f"pk {s.slot} savep {self.blob('manifest.rdf', default_rdf)}", ("PRETTY", files), {"origin": s.name, "history": list(s.log), "what": "the pretty-printed package"}))
+
     def files_words(self, files: dict) -> str:
         return " ".join(f"{self.nid(n)}:{self.blob(n, b)}" for n, b in files.items())
 
@@ -484,6 +508,39 @@ class Mirror:
             if exp is None:
                 if ans.startswith("bad") or ans == "no-doc":
                     chk.disagree({**case, "line": q[:300]}, f"model answered {ans!r}")
+                continue
+            if isinstance(exp, tuple) and exp[0] == "PRETTY":
+                files = exp[1]
+                rev_n = {v: k for k, v in self.names.items()}
+                rev_b = {v: k for k, v in self.blobs.items()}
+                if not ans.startswith("ok"):
+                    chk.disagree({**case, "line": q[:200]}, f"model answered {ans!r}")
+                    continue
+                model = {}
+                for w in ans.split(" ")[1:]:
+                    n_, _, b_ = w.partition(":")
+                    model[rev_n.get(int(n_), n_)] = b_
+                diffs = []
+                for n_ in sorted(set(model) | set(files)):
+                    if n_ not in files:
+                        diffs.append(f"{n_}: written by the model only")
+                    elif n_ not in model:
+                        diffs.append(f"{n_}: written by the implementation only")
+                    elif model[n_].startswith("m"):
+                        if self.blob(MANIFEST, files[n_]) != model[n_]:
+                            diffs.append(f"{n_}: manifest entries differ")
+                    else:
+                        k = int(model[n_][1:])
+                        base = rev_b.get(k % 1000000)
+                        if base is None:
+                            diffs.append(f"{n_}: the model names an unknown blob {k}")
+                        elif k >= 1000000:
+                            if self.layout_free(n_, files[n_]) != self.layout_free(n_, base):
+                                diffs.append(f"{n_}: not the pretty-printed form of what the plain save writes")
+                        elif canon(n_, files[n_]) != base:
+                            diffs.append(f"{n_}: the model writes this part as it is, the implementation wrote something else")
+                if diffs:
+                    chk.disagree({**case, "line": q[:200], "differences": diffs[:6]}, "pretty-printed package: implementation and model (Doc.savePretty) differ")
                 continue
             if exp != ans and q.split(" ")[2:3] == ["save"]:
                 # the order of the entries after `mimetype` is the insertion order of a dict fed by a directory listing: compared as a set
